@@ -1,5 +1,3 @@
-                match violations iv with
-                | [] => "ok"
 import MtxVerif.Model.C10
 open MtxVerif MtxVerif.C10
 
@@ -198,10 +196,7 @@ def step (_ : Unit) (op impl : String) : Unit × DrvOut :=
               | none => "FAIL unparsable implementation answer"
               | some iv =>
                 match violations iv with
-                | [] =>
-                  -- every enforced constraint holds; the one documented constraint nothing enforces:
-                  if rangeArityClass iv then "KNOWN udp-port-range-arity accepted configuration has an rtspUDPSourcePortRange that is not a pair of ports (the rtsp static source indexes [0] and [1]: the process panics)"
-                  else "ok"
+                | [] => "ok"
                 | l => "FAIL accepted configuration violates: " ++ "; ".intercalate l
           match validate v with
           | .error _ => ((), { model := "err", spec })
